@@ -260,6 +260,10 @@ VF_MAIN
         VF_REACH("rejected");
         VF_ASSERT(C(0).authStatus != PS_CERT_AUTH_PASS, "c03.failure_never_leaves_pass");
     }
+    /* the issuer is not being authenticated here: what parsing recorded about
+       it (validity period, ...) must survive for the caller's chain walk */
+    VF_ASSERT((C(VF_K).authFailFlags & (*PRE[VF_K]).authFailFlags) == (*PRE[VF_K]).authFailFlags,
+        "c03.issuer_parse_time_failures_preserved");
     /* converse: names chain, CA, not revoked, verified, ids agree, may sign,
        in validity => accepted with PASS */
     {
